@@ -264,6 +264,8 @@ PROPS["C03"] = {
     "jobs": [
         {"name": "conn_failure", "pkg": "region", "entry": "VerifConnFailure", "reach": ["failed"], "no_native": False, "native_retries": 3,
          "preempts": {"quick": 1, "thorough": 2}, "params": {"quick": {"K": 8, "protoMax": 1, "protoFixed": 1}, "thorough": {"K": 12, "protoMax": 1, "protoFixed": 1}}},
+        {"name": "failure_concurrent_reader", "pkg": "region", "entry": "VerifFailureConcurrentReader", "stubs": RECV_STUBS, "reach": ["completed"],
+         "preempts": {"quick": 2, "thorough": 3}, "params": {"quick": {"K": 4, "protoMax": 1, "protoFixed": 1}, "thorough": {"K": 5, "protoMax": 1, "protoFixed": 1}}},
         {"name": "failure_with_responses", "pkg": "region", "entry": "VerifFailureWithResponses", "stubs": RECV_STUBS, "reach": ["completed"],
          "params": {"quick": {"K": 6, "protoMax": 1, "protoFixed": 1}, "thorough": {"K": 8, "protoMax": 1, "protoFixed": 1}}},
     ],
